@@ -66,6 +66,9 @@ def reserved_shapes_project():
 CONVENTIONS = ["camelCase", "snake_case", "PascalCase", "SCREAMING_SNAKE_CASE", "kebab-case", "SCREAMING-KEBAB-CASE", "lowercase", "UPPERCASE"]
 
 
+PARAM_TYPES = ["u32", "Option<String>", "Option<Vec<u8>>", "Vec<Option<u8>>", "HashMap<String, u8>", "PT", "Option<PT>", "Option<Option<u8>>"]
+
+
 def cls_chars(s):
     out = []
     for c in s:
@@ -173,7 +176,15 @@ def run(tier, seed):
     # 4. parameter identifiers under the two parameter cases and every default case convention
     gp = C.run_tlc("Gen_Names", "Gen_Names_params", workers=2, timeout=600).json_lines("REPLAY")
     idents = sorted({"".join(c["ident"]) for c in gp})
-    psrc = PC.PRELUDE + "".join("#[tauri::command]\npub fn pc%d(%s: u32, ch_%d: Channel<u8>) {}\n" % (i, n, i) for i, n in enumerate(idents))
+    # ... each with every shape of parameter type (the Zod parameter schema is written per shape: required, optional,
+    # optional container, project type), and function- / parameter-level serde renames that are not identifiers
+    psrc = PC.PRELUDE + "#[derive(Serialize, Deserialize)]\npub struct PT {\n    pub v: u8,\n}\n"
+    psrc += "".join("#[tauri::command]\npub fn pc%d_%d(%s: %s, ch_%d: Channel<u8>) {}\n" % (i, k, n, ty, i)
+                    for i, n in enumerate(idents) for k, ty in enumerate(PARAM_TYPES))
+    for k, ty in enumerate(PARAM_TYPES):
+        psrc += "#[tauri::command]\npub fn pr%d(#[serde(rename = \"display-name\")] display_name: %s, #[serde(rename = \"2nd\")] second: %s, plain_one: %s) {}\n" % (k, ty, ty, ty)
+        for ci, conv in enumerate(CONVENTIONS):
+            psrc += "#[tauri::command]\n#[serde(rename_all = \"%s\")]\npub fn pa%d_%d(first_arg: %s, second_arg_2: %s) {}\n" % (conv, k, ci, ty, ty)
     for conv in CONVENTIONS:
         projects.append(("params-" + conv, {"src/lib.rs": psrc}, {"default_parameter_case": conv, "default_field_case": conv}))
         projects.append(("feature-" + conv, {"src/lib.rs": c10.FEATURE_SRC}, {"default_parameter_case": conv, "default_field_case": conv}))
